@@ -2,8 +2,8 @@
 from checks import pfcp_common as pc
 
 MANIFEST = dict(
-    text='Kernel-checked: the reference-count invariant (count = number of PDRs whose URR list names the URR) is preserved by every per-session operation, by emit, by Close and by run_categories for the generated handler orders, under the stated well-formedness (Create PDR ids fresh, < 65536 PDRs); dissociation from the last PDR issues exactly one query and returns its usage marked TERMR, from a shared URR nothing; Remove URR returns the usage marked TERMR, Query URR marked IMMER; the Deletion Response marks every report TERMR and carries at most one per URR. PARTIAL: Create PDR naming an id the session still holds corrupts the count (refuted lemma; finding sig=create-pdr-existing-id). Tie: differential run + state invariant monitor + exact expectation monitor.',
-    note='Partial: duplicate Create PDR id is a recorded finding; no unconditional world-level theorem because of it. ',
+    text='Kernel-checked: the reference-count invariant (count = number of PDRs whose URR list names the URR) is preserved by every per-session operation, by emit, by Close and by run_categories for the generated handler orders, for ANY Create PDR ids - fresh, naming PDRs the session holds, repeated in one request - as long as the session has fewer than 65536 PDRs (C12_modification_keeps_refcounts_any_ids, C12_create_pdr); dissociation from the last PDR issues exactly one query and returns its usage marked TERMR, from a shared URR nothing; Remove URR returns the usage marked TERMR, Query URR marked IMMER; the Deletion Response marks every report TERMR and carries at most one per URR. A Create PDR naming a PDR the session still holds REPLACES its associations the way Update PDR does, and the previous bookkeeping is put back when the data plane rejects the duplicate (the former finding create-pdr-existing-id is fixed; its history is a regression case, C12_create_pdr_existing_id_exact). Tie: differential run + state invariant monitor + exact expectation monitor.',
+    note='The world-level statement needs the uint16 counter not to wrap: fewer than 65536 PDRs per session (explicit hypothesis). ',
     technique="Coq lemmas on the emission / queue / reference-count functions + differential run + trace monitor",
     design='4/C12')
 
